@@ -26,7 +26,7 @@ From Coq Require Import String.
 From Coq Require Import List ZArith Bool Permutation Lia.
 From SV Require Import Base.Base Fmt.VBits Fmt.VExpr Fmt.VDoc Fmt.VTop Fmt.VElab Fmt.VSpec Fmt.VSem
   Proofs.VerilogLists Proofs.VerilogSlice Proofs.VerilogGrow Proofs.VerilogPort Proofs.VerilogAssign Proofs.VerilogTop
-  Proofs.VElabBase Proofs.VElabInv Proofs.VElabWf Proofs.VElabExpr Proofs.VElabConn Proofs.VElabAssign Proofs.VElabPorts Proofs.VElabNets Proofs.VElabTop Proofs.VElabStable Proofs.VElabVis.
+  Proofs.VElabBase Proofs.VElabInv Proofs.VElabWf Proofs.VElabExpr Proofs.VElabConn Proofs.VElabAssign Proofs.VElabPorts Proofs.VElabNets Proofs.VElabTop Proofs.VElabStable Proofs.VElabVis Proofs.VElabFrame Proofs.VElabDoc.
 Import ListNotations.
 Local Close Scope string_scope.
 Open Scope Z_scope.
@@ -337,6 +337,36 @@ Proof.
   split; [|vm_compute; discriminate].
   apply (run_visible ex_doc2). unfold ex_state. destruct (run ex_doc2) as [s|e] eqn:E; [reflexivity|]. vm_compute in E. discriminate.
 Qed.
+
+(* frames for the constructs that had none: every item of a module body except a port declaration - wire declarations,
+   assigns, instances with named or positional maps (of ANY definition, the module itself or one referenced elsewhere
+   included), defparams - keeps, in EVERY definition held, every endpoint on the net bit it was on (no typing
+   hypothesis: only a "defining" declaration re-bases a bundle; everything else extends bundles and appends objects) *)
+Theorem C06_frame_body_items : forall cur items s s' k r e, Inv s -> Forall not_port_decl items ->
+  fold_res (body_item cur) items s = Ok s' ->
+  In e (net_of r (abs_def s (get_def k s))) -> In e (net_of r (abs_def s' (get_def k s'))).
+Proof. exact body_nets_persist. Qed.
+Print Assumptions C06_frame_body_items.
+
+(* ... and so do add_blackbox_definitions and the positional maps deferred to the end of the file *)
+Theorem C06_frame_end_of_file : forall s1 s k r e, Inv s1 ->
+  fold_res pending_one (st_pending (close_blackboxes s1)) (close_blackboxes s1) = Ok s ->
+  In e (net_of r (abs_def s1 (get_def k s1))) -> In e (net_of r (abs_def s (get_def k s))).
+Proof. exact end_of_file_nets_persist. Qed.
+Print Assumptions C06_frame_end_of_file.
+
+(* the connection clause composed: an instance with a named port map, read in a state that satisfies the invariants
+   every reachable state satisfies (Inv: run_inv; VInv: run_vinv), puts bit k of every connection expression on bit k
+   of the port, and the value still shows it after any label-stable continuation (LS: C06_frame_* above) *)
+Theorem C06_full_instance_persists : forall cur m i params attrs l s s1 s2, Inv s -> VInv s -> (cur < length (st_defs s))%nat ->
+  ed_name (get_def cur s) <> m ->
+  Forall (conn_typed (crange (get_def cur s))) l -> Forall (fun pc => has_glob (fst pc) = false) l ->
+  (forall k, find_def m s = Some k -> all_lo0 (get_def k s)) ->
+  inst_item cur m i params attrs (CNamed l) s = Ok s1 -> LS s1 s2 ->
+  forall pc e r, In pc l -> In (e, r) (conn_meaning i (crange (get_def cur s)) pc) ->
+  In e (net_of r (abs_def s2 (get_def cur s2))).
+Proof. exact inst_named_persists. Qed.
+Print Assumptions C06_full_instance_persists.
 
 (* one position of a positional port map (processed when the whole file has been read): the same, on the port at that
    position of the referenced definition, or on a new unnamed port of the width of the expression when the
